@@ -57,10 +57,10 @@ void rf_column(ref_arena* a, const rfile_t* f, int ci, int rg, ref_coldata* o) {
     }
 }
 int rf_build(ref_arena* a, const rfile_t* f, ref_buf* img, ref_pageinfo* pages, int maxpages, int* npages, ref_coldata* cols) {
-    int nrg = f->nrg > 0 ? f->nrg : 1;
+    int nrg = f->nrg > 0 ? f->nrg : f->nrg < 0 ? 0 : 1;
     ref_schema_elem* sc = ref_alloc(a, sizeof(ref_schema_elem) * (size_t)(f->ncols * 4 + 1)); int ns = 1;
     sc[0].name = (ref_bin){ (const uint8_t*)"schema", 6, true }; sc[0].has_num_children = true; sc[0].num_children = f->ncols;
-    static const char* DN[] = { "c0", "c1", "c2", "c3" };
+    static const char* DN[] = { "k1x", "k1", "k", "k1xy" };     /* later names are prefixes of earlier ones: a lookup that matches prefixes picks the wrong column */
     for (int c = 0; c < f->ncols; c++) {
         int leafrep = f->col[c].opt ? 1 : 0;
         if (f->ctx[c] != RF_CTX_FLAT) {
@@ -88,7 +88,7 @@ const char* rf_desc(const rfile_t* f) {
         if (f->defs[c]) { k += snprintf(o + k, 600 - (size_t)k, "/L"); for (int r = 0; r < f->N && k < 560; r++) k += snprintf(o + k, 600 - (size_t)k, "%d.%d,", f->reps[c] ? f->reps[c][r] : 0, f->defs[c][r]); }
         k += snprintf(o + k, 600 - (size_t)k, "/p");
         if (!f->npages[c]) k += snprintf(o + k, 600 - (size_t)k, "1"); for (int p = 0; p < f->npages[c]; p++) k += snprintf(o + k, 600 - (size_t)k, "%s%d", p ? "+" : "", f->page_levels[c][p]); }
-    snprintf(o + k, 600 - (size_t)k, ";n=%d;rg=%d;codec=%d;crc=%d;lf=%d;if=%d;bwx=%d;pat=%d;dofs=%d%d;v2=%d;lenc=%d;tf=%d%d;unk=%d%s", f->N, f->nrg ? f->nrg : 1, f->codec, f->crc, f->level_form, f->index_form, f->index_bw_extra, f->pattern,
+    snprintf(o + k, 600 - (size_t)k, ";n=%d;rg=%d;codec=%d;crc=%d;lf=%d;if=%d;bwx=%d;pat=%d;dofs=%d%d;v2=%d;lenc=%d;tf=%d%d;unk=%d%s", f->N, f->nrg > 0 ? f->nrg : f->nrg < 0 ? 0 : 1, f->codec, f->crc, f->level_form, f->index_form, f->index_bw_extra, f->pattern,
              f->dict_offset_present, f->data_offset_at_dict, f->v2, f->level_encoding, f->fl.tform.long_field_headers, f->fl.tform.long_list_headers, f->fl.unknown_kind, f->fl.unknown_at_end ? "e" : "");
     return o;
 }
